@@ -382,7 +382,7 @@ def compute_merkle_root(ctx, P):
     good = [e for e in rets if is_expr(e.value) and show(e.value) == "hashes[0]"]
     empty = [e for e in rets if is_expr(e.value) and e.value[0] == "ctor"]
     okr = len(good) == 1 and len(good) + len(empty) == len(rets) and all(
-        F.implies(e.formula, F.mk_not(F.atom("hashes.size()"))) for e in empty) and F.implies(good[0].formula, F.atom("done(loop@%s)" % wl.get("l")))
+        F.implies(e.formula, F.atom("hashes.empty()")) for e in empty) and F.implies(good[0].formula, F.atom("done(loop@%s)" % wl.get("l")))
     ctx.ob("ComputeMerkleRoot/result", "TWIN", "the root is hashes[0] after the level loop; the null hash is returned only for an empty list", okr, f.where,
            {"returns": [(e.line, show(e.value)) for e in rets]})
 
